@@ -49,6 +49,16 @@ CHECKS = {
    technique="exact rational output distributions from complete-cell DFS of the real generators; max probability compared with 2^-Entropy()",
    text="Uses the exact output distributions of C02's character cells and C04's wordlist cells (plus lists with uncapitalisable words under one/random): no password may be likelier than 2^-Entropy() (8 float32 ulps), equality must hold when generation is uniform, every returned Password.Entropy must be bit-identical to Entropy(), and Entropy() must not depend on the random stream.",
    note="Same bounds as C02/C04; probabilities of retrying recipes are conditioned on success."),
+ "C11": dict(
+   engine="E1-cells", category="model_checking", ref="§3 C11",
+   technique="exhaustive enumeration of token sequences reachable through the public API (all leaves of generation cells; all Tokenize constructions over a small alphabet), round trip through the real MakeIndices/Tokenize",
+   text="Every password of the complete wordlist and multi-byte character cells, words and separators of 127-256 characters (ASCII and 2-byte), and every token sequence constructible with Tokenize from <=4-character strings and <=5-byte indices is encoded and decoded again; values, types, entropy bits and the documented index size must match, and tokens beyond 255 characters must be refused or at least not lossy.",
+   note="Token sequences with empty tokens or undocumented type bytes are outside the property's premise and only counted (observation in DESIGN §4)."),
+ "C12": dict(
+   engine="E-config", category="model_checking", ref="§3 C12",
+   technique="exhaustive enumeration of index byte strings (all kinds 0..255, all lengths/parities; thorough: every byte string of length 0-3) x strings, real Tokenize with panics recovered, reference decoder oracle",
+   text="Tokenize is a pure function of (string, index, entropy); the index space is enumerated exhaustively within the stated bounds for 9 strings including invalid UTF-8 and the empty string. Each call must return; a success must agree token by token with a reference decoder of the documented format; malformed indices must be errors.",
+   note="Index tails are drawn from {0,1,2,3,5,255} beyond length 3; an error on a decodable index is allowed by the property and only counted."),
 }
 
 PENDING_REASON = "check not built yet in this session (planned in DESIGN.md §3; will be claimed when its checker exists)"
